@@ -126,6 +126,12 @@ def empty1(ctx: Ctx, chk) -> None:
             return None
 
     ok = isinstance(a, ast.BoolOp) and isinstance(a.op, ast.Or) and len(a.values) == 2 and _const(a.values[1]) in ("{}",)
+    if not ok and isinstance(a, ast.IfExp):
+        # the same default spelled as a conditional expression: `read if read else "{}"` / `"{}" if not read else read`
+        t_, b_, o_ = a.test, a.body, a.orelse
+        if isinstance(t_, ast.UnaryOp) and isinstance(t_.op, ast.Not):
+            t_, b_, o_ = t_.operand, o_, b_
+        ok = isinstance(t_, ast.Name) and norm(b_) == norm(t_) and _const(o_) == "{}"
     if ok:
         chk.ok(rule, fkey(load, c), "json.loads(read or '{}')", ctx.loc(load, c))
     else:
